@@ -229,6 +229,14 @@ class Ctx:
     def harness_error(self, why, detail=None):
         self.r["harness_errors"].append({"case": self.case_id, "why": why, "detail": detail})
 
+    def unchanged(self, tag, c, spec):
+        """side assertion: a function that must not modify its argument left circuit `c` equal to `spec` (nodes, attributes,
+        edges, name, blackbox registry incl. the pin sets of the BlackBox objects)"""
+        from cgv.net import Net
+
+        now, ref = Net.of(c).spec(), Net.from_spec(spec).spec()
+        return self.side(tag + ":argument-unchanged", now == ref, tag + ":mutates-argument", f"{tag} modified the circuit passed to it")
+
     def lint_clean(self, c, tag, sig=None, **flags):
         """side assertion used by every E1 harness: library outputs pass the real lint"""
         import circuitgraph as cg
